@@ -915,6 +915,14 @@ func (c *VC) execFor(st *State, s *ast.ForStmt, label string) {
 			return c.evalCond(b, s.Cond)
 		},
 		func(b *State) {
+			if ld != nil && ld.Split && len(s.Body.List) > 0 {
+				// the body ends in a switch: every case end is a path of its own
+				if sw, ok := s.Body.List[len(s.Body.List)-1].(*ast.SwitchStmt); ok {
+					saveS, saveT := c.splitTail, c.splitTailTarget
+					c.splitTail, c.splitTailTarget = sw, tg
+					defer func() { c.splitTail, c.splitTailTarget = saveS, saveT }()
+				}
+			}
 			c.execBlock(b, s.Body.List)
 		},
 		func(b *State) {
@@ -1578,6 +1586,11 @@ func (c *VC) execSwitch(st *State, s *ast.SwitchStmt, label string) {
 		if tail != nil && !b.dead() {
 			c.exec(b, tail)
 		}
+		if c.splitTail == s && c.splitTailTarget != nil && !b.dead() {
+			// last statement of a loop body verified per path: the case end is the end of an iteration
+			c.splitTailTarget.continues = append(c.splitTailTarget.continues, b.clone())
+			b.pc = tFalse
+		}
 		ends = append(ends, b)
 	}
 	fr.targets = fr.targets[:len(fr.targets)-1]
@@ -1637,8 +1650,41 @@ func (c *VC) execTypeSwitch(st *State, s *ast.TypeSwitchStmt, label string) {
 
 // siteAsserts: `//@ site <stmt>: e` states that e holds immediately before every statement of the
 // function under verification whose source text starts with <stmt> (first line).
+// siteOrdinal: 1-based position of s, in source order, among the statements of the function under
+// verification whose text matches the site directive.
+func (c *VC) siteOrdinal(s ast.Stmt, cs CallSiteDir) int {
+	n, found := 0, 0
+	ast.Inspect(c.fn.Decl.Body, func(nd ast.Node) bool {
+		x, ok := nd.(ast.Stmt)
+		if !ok || found > 0 {
+			return found == 0
+		}
+		switch x.(type) {
+		case *ast.BlockStmt, *ast.LabeledStmt:
+			return true
+		}
+		text := exprText(c.prog.fset, x)
+		if i := strings.IndexByte(text, '\n'); i >= 0 {
+			text = text[:i]
+		}
+		text = strings.TrimSpace(text)
+		match := cs.Callee == text
+		if strings.HasSuffix(cs.Callee, "...") {
+			match = strings.HasPrefix(text, strings.TrimSpace(strings.TrimSuffix(cs.Callee, "...")))
+		}
+		if match {
+			n++
+			if x == s {
+				found = n
+			}
+		}
+		return true
+	})
+	return found
+}
+
 func (c *VC) siteAsserts(st *State, s ast.Stmt) {
-	if c.ghost > 0 || len(c.frames) != 1 || st.dead() {
+	if c.ghost > 0 || len(c.frames) != 1 {
 		return
 	}
 	d := c.fn.Dir
@@ -1666,11 +1712,25 @@ func (c *VC) siteAsserts(st *State, s ast.Stmt) {
 		} else if cs.Callee != text {
 			continue
 		}
+		if cs.Ord > 0 && c.siteOrdinal(s, cs) != cs.Ord {
+			continue
+		}
+		if c.siteHits == nil {
+			c.siteHits = map[string]int{}
+		}
+		c.siteHits[fmt.Sprintf("%d %s: %s", cs.Ord, cs.Callee, cs.Expr)]++
+		if st.dead() {
+			continue
+		}
 		t, err := c.evalDirective(st, cs.Expr, s.Pos())
 		if err != nil {
 			c.prog.errors = append(c.prog.errors, fmt.Sprintf("CONTRACT-STALE %s site %q %q: %v", c.fn.Name, cs.Callee, cs.Expr, err))
 			continue
 		}
-		c.addObl("site", cs.Callee+": "+cs.Expr, s.Pos(), st.pc, t)
+		nm := cs.Callee + ": " + cs.Expr
+		if cs.Ord > 0 {
+			nm = fmt.Sprintf("#%d %s", cs.Ord, nm)
+		}
+		c.addObl("site", nm, s.Pos(), st.pc, t)
 	}
 }
